@@ -22,7 +22,7 @@ META = {
     "variable layouts of 6 model shapes with 2-3 labels per variable",
     "outside": "XLA may evaluate a fused producer twice with different rounding (floating-point compiler effect below the jaxpr) - "
     "not visible to a real-number encoding, nothing claimed; NaN entries; unsorted segment ids; shapes beyond the listed ones",
-    "assumptions": ["array entries finite reals", "segment ids sorted and covering 0..k-1 (as produced by lcm)"],
+    "assumptions": ["array entries finite reals or -inf (segment_argmax: entries masked to -inf by a symbolic mask)", "segment ids sorted and covering 0..k-1 (as produced by lcm)"],
     "stubs": [],
 }
 
@@ -191,39 +191,47 @@ def u_segment_argmax(rec, nmax, trailing):
         for comp in compositions(n):
             seg_ids = np.repeat(np.arange(len(comp)), comp)
             k = len(comp)
-            for jit in (False, True):
+            for jit, with_inf in ((False, False), (True, False), (True, True)):
                 S = sj.Session()
                 D = S.real("d", (n, *trailing))
+                Mk = S.bool("m", (n, *trailing))
                 rec.symbols = S.symbols
-                f = lambda d: segment_argmax(d, jnp.asarray(seg_ids), k)  # noqa: E731
+                if with_inf:
+                    # entries may be -inf (infeasible rows carry -inf in lcm): data = where(m, d, -inf)
+                    f = lambda d, m: segment_argmax(jnp.where(m, d, -jnp.inf), jnp.asarray(seg_ids), k)  # noqa: E731
+                else:
+                    f = lambda d, m: segment_argmax(d, jnp.asarray(seg_ids), k)  # noqa: E731
                 g = jax.jit(f) if jit else f
-                idx, mx = S.run(g, D)
-                Dt, it, mt = sj.terms(D), sj.terms(idx), sj.terms(mx)
+                idx, mx = S.run(g, D, Mk)
+                Dt, Mt, it, mt = sj.terms(D), sj.terms(Mk), sj.terms(idx), sj.terms(mx)
                 assert it.shape == (k, *trailing) == mt.shape
 
                 def concrete(vals):
-                    i, m = g(Conc(vals).real("d", (n, *trailing)))
+                    C = Conc(vals)
+                    i, m = g(C.real("d", (n, *trailing)), C.bool("m", (n, *trailing)))
                     return np.asarray(i), np.asarray(m)
 
                 for s in range(k):
                     rows = [r for r in range(n) if seg_ids[r] == s]
                     for ti in np.ndindex(*trailing):
                         vals = [Dt[(r, *ti)] for r in rows]
-                        _, best = zmax_masked(vals, [True] * len(vals))
+                        masks = [Mt[(r, *ti)] if with_inf else True for r in rows]
+                        none, best = zmax_masked(vals, masks)
                         gi, gm = it[(s, *ti)], mt[(s, *ti)]
-                        claim_m = sj._cmp("eq", gm, best)
-                        # returned row lies in the segment and attains the maximum
-                        claim_i = sj.b_any([sj.b_and(sj._cmp("eq", gi, r), sj.zr(Dt[(r, *ti)]) == best) for r in rows])
+                        gn, gv = sj.split_x(sj.force(gm))
+                        claim_m = sj.b_and(sj.ite_b(none, gn, sj.b_not(gn)), sj.b_or(none, sj._cmp("eq", gv, best)))
+                        # returned row lies in the segment and attains the maximum (-inf == -inf if all entries are -inf)
+                        claim_i = sj.b_any([sj.b_and(sj._cmp("eq", gi, r), sj.ite_b(none, True, sj.b_and(mk_, sj._cmp("eq", sj.zr(Dt[(r, *ti)]), best)))) for r, mk_ in zip(rows, masks)])
 
-                        def replay(vals_, s=s, ti=ti, rows=rows, concrete=concrete):
+                        def replay(vals_, s=s, ti=ti, rows=rows, concrete=concrete, with_inf=with_inf):
                             i_obs, m_obs = concrete(vals_)
-                            d = np.array([float(vals_["d_" + "_".join(map(str, (r, *ti)))]) for r in rows])
+                            d = np.array([float(vals_["d_" + "_".join(map(str, (r, *ti)))]) if (not with_inf or vals_.get("m_" + "_".join(map(str, (r, *ti))), False)) else float("-inf") for r in rows])
                             r_obs = int(i_obs[(s, *ti)])
                             if r_obs in rows and close(m_obs[(s, *ti)], d.max()) and d[rows.index(r_obs)] == d.max():
                                 return None
-                            return {"what": "segment_argmax row does not attain the segment maximum", "observed": [r_obs, float(m_obs[(s, *ti)])], "expected": [[rows[j] for j in np.flatnonzero(d == d.max())], float(d.max())], "segments": list(map(int, seg_ids))}
+                            return {"what": "segment_argmax row does not attain the segment maximum / is not a row of the segment", "observed": [r_obs, float(m_obs[(s, *ti)])], "expected": [[rows[j] for j in np.flatnonzero(d == d.max())], float(d.max())], "segments": list(map(int, seg_ids)), "data": d.tolist()}
 
-                        tag = f"seg={list(comp)},jit={jit}"
+                        tag = f"seg={list(comp)},jit={jit},-inf={with_inf}"
                         rec.prove(f"segmax[{tag}]{(s, *ti)}", claim_m, [], replay=replay)
                         rec.prove(f"segarg[{tag}]{(s, *ti)}", claim_i, [], replay=replay)
             rec.primitives = {**getattr(rec, "primitives", {}), **S.trace.stats}
